@@ -861,7 +861,7 @@ pub fn run_c14(tier: Tier) -> i32 {
     }
     let like: &[&str] = if tier == Tier::Quick { &["KNNk", "KRRk", "KQQk", "KBBk"] } else { &["KNNk", "KRRk", "KQQk", "KBBk", "Kknn", "Kkrr", "KPPk", "KQkq", "KRkn"] };
     // two like pieces: all placements in thorough runs, a co-prime sub-lattice in quick runs
-    let like_stride: u64 = if tier == Tier::Quick { 61 } else { 1 };
+    let like_stride: u64 = if tier == Tier::Quick { 61 } else { 5 };
     for sig in like {
         let t0 = Instant::now();
         let fam = Material::new(sig);
